@@ -186,8 +186,32 @@ func runC04(c *Ctx) {
 			{Name: "uncache only after commit of the root succeeded", Re: `^Database#0\.commit\(.*\) == nil$`},
 		})
 		c.AllDominatedBy("C04-R2", cc, `^Database\.commit$`, `^Database\.uncache$`, 1, "nodes are batched before being uncached")
+		// the account trie's leaves link their storage trie and their code blob, so that committing the state root
+		// writes them too: an unlinked blob stays in memory and is lost on restart
+		var leaf *ssa.Function
+		for _, a := range c.Fn("core/state:(*StateDB).Commit").AnonFuncs {
+			if len(callSites(a, `^Database\.Reference$`)) > 0 {
+				leaf = a
+			}
+		}
+		if leaf == nil {
+			c.Ob("C04-R2", "StateDB.Commit's leaf callback found", "", false, "")
+		} else {
+			fl := c.Facts(leaf)
+			var st []*pstate
+			for _, r := range fl.AllReturns() {
+				st = append(st, r.State)
+			}
+			undec := `rlp\.DecodeBytes\(\[\]byte#0, new\(Account\)\) != nil`
+			c.mustStates("C04-R2", leaf, "return", st, []LitReq{
+				{Name: "every account leaf with non-empty code references its code blob from the leaf's parent", Unless: `^(` + undec + `|common\.BytesToHash\(new\(Account\)\.CodeHash\) == state\.emptyCode)$`,
+					Re: `^called:.*\.TrieDB\(\)\.Reference\(common\.BytesToHash\(new\(Account\)\.CodeHash\), Hash#0\)$`},
+				{Name: "every account leaf with a storage trie references its storage root from the leaf's parent", Unless: `^(` + undec + `|new\(Account\)\.Root == state\.emptyState)$`,
+					Re: `^called:.*\.TrieDB\(\)\.Reference\(new\(Account\)\.Root, Hash#0\)$`},
+			})
+		}
 	})
-	c.Min("C04-R2", 7)
+	c.Min("C04-R2", 9)
 
 	c.Rule("C04-R3", "no lock survives a failed write: every Lock/RLock in trie, core, core/state, aquadb is released on every non-panic exit", func() {
 		f, o := c.LockPairingRule("C04-R3", []string{"trie", "core", "core/state", "aquadb", "core/types", "core/bloombits"}, nil, nil)
@@ -263,12 +287,29 @@ func runC04(c *Ctx) {
 			{Name: "head state present or repaired", Unless: `^BlockChain#0\.Reset\(\) == nil$`, Re: `^(state\.New\(new\(Block\)\.Root\(\), BlockChain#0\.stateCache\)#1 == nil|BlockChain#0\.repair\(new\(Block\)\) == nil)$`},
 			{Name: "current block stored", Unless: `^BlockChain#0\.Reset\(\) == nil$`, Re: `^called:BlockChain#0\.currentBlock\.Store\(new\(Block\)\)$`},
 		})
+		// re-feeding blocks after a crash or rollback: an already stored block may be skipped only if the head is not
+		// below it, otherwise the head would never advance onto it again
+		ic := c.Fn("core:(*BlockChain).insertChain2")
+		fi := c.Facts(ic)
+		var skipped []*pstate
+		for _, s := range fi.LoopBackStates(`^BlockChain\.WriteBlockWithState$`) {
+			_, known := hasLit(s, mustRe(`== core\.ErrKnownBlock$`))
+			if known && !s.lits["call:BlockChain.WriteBlockWithState"] {
+				skipped = append(skipped, s)
+			}
+		}
+		c.mustStates("C04-R6", ic, "loop continuation that skips a known block", skipped, []LitReq{
+			{Name: "a known block is skipped only if the current head is at or above its height", Re: `^BlockChain#0\.CurrentBlock\(\)\.NumberU64\(\) >= Blocks#0\[.*\]\.NumberU64\(\)$`},
+		})
+		if len(skipped) == 0 {
+			c.Ob("C04-R6", "insertChain2 has the known-block skip path", c.FnPos(ic), false, "no loop continuation under ErrKnownBlock found")
+		}
 		rp := c.Fn("core:(*BlockChain).repair")
 		c.MustOnAccept("C04-R6", rp, -1, false, []LitReq{
 			{Name: "repair returns only once a block with available state is found", Re: `^state\.New\(.*\.Root\(\), BlockChain#0\.stateCache\)#1 == nil$`},
 		})
 	})
-	c.Min("C04-R6", 7)
+	c.Min("C04-R6", 8)
 
 	c.Rule("C04-R7", "head markers (atomic.Value) are stored before any constructor-reachable code can read them with an unchecked type assertion", func() {
 		nb := c.Fn("core:NewBlockChain")
